@@ -2,7 +2,7 @@
    observations the Go harness made on the real code).  Claims are compared up to claims holding
    the Go zero value (omitempty) and up to the clock-dependent claims named per consumer. *)
 From Coq Require Import String ZArith NArith List Bool.
-From KM Require Import Base.Bytes Model.Tokens Model.OIDC.
+From KM Require Import Base.Bytes Base.Cases Model.Tokens Model.OIDC.
 Import ListNotations.
 Open Scope Z_scope.
 
@@ -71,4 +71,21 @@ Definition case_bad (i : idp) (toks : list token)
   | Some t =>
       negb (out_matches c (exec i (op_of t0 c t)) ok user emitted ||
             out_matches c (exec i (op_of t1 c t)) ok user emitted)
+  end.
+
+(* byte-corrupted artefacts, one batch per consumer: base token, consumer, clock readings at the
+   start and the end of the batch, and one byte per corrupted token (bit 0: the harness found the
+   decoded segments altered, bit 1: the implementation accepted).  The model's verdict on the base
+   token with the tampered flag set accordingly must be the observed one at one of the readings. *)
+Definition batch_mismatches (i : idp) (toks : list token) (k : nat * consumer * Z * Z * bs) : list nat :=
+  let '(ti, c, t0, t1, v) := k in
+  match nth_opt toks ti with
+  | None => [O]
+  | Some t =>
+      let mk (tam : bool) := {| t_signer := t_signer t; t_alg := t_alg t; t_tampered := tam; t_claims := t_claims t |} in
+      let a0 := accepts i t0 c (mk false) in let a1 := accepts i t1 c (mk false) in
+      let b0 := accepts i t0 c (mk true) in let b1 := accepts i t1 c (mk true) in
+      KM.Base.Cases.mismatches (fun x : N =>
+        let ok := (2 <=? x)%N in
+        if N.odd x then negb (Bool.eqb b0 ok || Bool.eqb b1 ok) else negb (Bool.eqb a0 ok || Bool.eqb a1 ok)) v
   end.
